@@ -8,28 +8,6 @@ import MptModel.Lemmas.BraceTree
 namespace Mpt.Parse
 open Mpt.Conf Mpt.Render
 
-theorem loop_step (k : Kind) (cfg : Cfg) (b b1 : Build) (prev : Nat) (s s1 : St) (src src1 : Src) (code : Int)
-    (p : Path) (heq : next k cfg prev s src = (code, s1, src1)) (hpos : 0 < code)
-    (hsave : nodeAppend b s1 prev code = some b1) (hafter : afterSave code s1.path = .ok p) :
-    loop k cfg nodeAppend b prev s src =
-      loop k cfg nodeAppend b1 s1.curr { s1 with path := p, curr := 0, valid := 0 } src1 := by
-  rw [loop_pos _ _ _ _ _ _ _ (by rw [heq]; exact hpos)]
-  simp only [heq, hsave, hafter]
-
-theorem loop_stop (k : Kind) (cfg : Cfg) (b : Build) (prev : Nat) (s s1 : St) (src src1 : Src)
-    (heq : next k cfg prev s src = (0, s1, src1)) :
-    (loop k cfg nodeAppend b prev s src).code = 0 ∧ (loop k cfg nodeAppend b prev s src).ctx = b := by
-  rw [loop_nonpos _ _ _ _ _ _ _ (by rw [heq]; exact Int.lt_irrefl 0)]
-  simp [heq]
-
-/-- removing the last element of a clean path leaves a clean path -/
-theorem del_clean (e : List (List UInt8)) (m : List UInt8) (p : Path) (h : Clean (e ++ [m]) p) :
-    ∃ p', afterSave 2 p = .ok p' ∧ Clean e p' := by
-  obtain ⟨h1, _, _⟩ := h
-  have hne : p.elems.isEmpty = false := by rw [h1]; simp
-  refine ⟨_, by simp [afterSave, Flag.sectEnd, Path.del, hne]; rfl, ?_, rfl, rfl⟩
-  simp [h1]
-
 theorem isLeaf_iff (t : Tree) : isLeaf t = true ↔ ∃ n v, t = .node n v [] := by
   cases t with
   | node n v cs =>
@@ -137,30 +115,61 @@ theorem parseNode_eq (desc : Option (List UInt8)) (cfg : Cfg) (t : UInt8) (k : K
   rw [← hcfg, hr]
   simp [hcode]
 
-/-- the element loop on an option list in the `{x}` format, from any clean parser state -/
-theorem loop_enc (d : Decor) (hd : d.ok) (f : Forest) (hleaf : f.all isLeaf = true) (hok : nodesOk f = true)
-    (s : St) (hclean : Clean [] s.path) (hv : s.valid = 0) :
-    (loop .enc cfgE nodeAppend ({} : Build) Flag.section_ s { rest := renderOptions d 0 f }).code = 0
-    ∧ (loop .enc cfgE nodeAppend ({} : Build) Flag.section_ s { rest := renderOptions d 0 f }).ctx.forest = norm f := by
-  obtain ⟨b', prev', s', src', J', hr, _, hp, hf, _, heq⟩ :=
-    options_claim optStyle_E d hd f 0 0 [] ({} : Build) Flag.section_ s { rest := renderOptions d 0 f } [] []
-      true hleaf hok ⟨hclean, hv, rfl, by simp⟩ (by simp [Mode, Flag.section_, Flag.sectEnd]) (Or.inl rfl) trivial
-  have hpo : PrevOpt prev' := by
-    rw [hp]; split
-    · exact Or.inl rfl
-    · exact Or.inr (Or.inr rfl)
-  obtain ⟨s2, src2, heof⟩ := optStyle_E.eof s' src' prev' J' false hr.clean hpo hr.junk (by simpa using hr.src)
-  obtain ⟨hcode, hctx⟩ := loop_stop .enc cfgE b' prev' s' s2 src' src2 heof
-  rw [heq]
-  refine ⟨hcode, ?_⟩
-  rw [hctx, hf]
-  simp [appendAll_zero]
+/-- the `{x}` format as a nested style: `{name` opens a section, `}` closes it -/
+theorem nestStyle_E : NestStyle .enc cfgE encOpenLine where
+  optLine := by
+    intro e s src prev junk n pre post tr rest ov h1 h2 h4 h5 h6 h7 h8 h9 h10
+    simp only [next]
+    exact enc_option_line flatCfg_E (by decide) (by decide) e s src prev junk n pre post tr rest ov h1 h2
+      (Or.inr (by decide)) h4 h5 h6 h7 h8 h9 h10
+  openLine := by
+    intro e s src prev J dl n rest hclean hv hJ hdl hn hsrc
+    obtain ⟨_, _, _, hht⟩ := LineDecor.ok_parts _ hdl
+    have hjunk := visSkip_lead J dl hJ hdl
+    have hsrc' : src.rest = (J ++ dl.before ++ dl.indent) ++ 123 :: (n ++ headTrail dl ++ 10 :: rest) := by
+      rw [hsrc]; simp [encOpenLine, List.append_assoc]
+    obtain ⟨ln, src1, hnv, hr1⟩ := nextvis_skip flatCfg_E.hash _ 123 _ s src hjunk (by decide) hsrc'
+    have hclean1 : Clean e ({ s with line := ln } : St).path := hclean
+    obtain ⟨l, fi', ln', src2, J', hes, hJ', hr2⟩ := encSection_head flatCfg_E e { s with line := ln } src1 n
+      (headTrail dl) rest hclean1 hv hn hht hr1
+    refine ⟨_, src2, J', ?_, ⟨l, fi', 0, ln', rfl⟩, hJ', hr2⟩
+    simp only [next, parseFormatEnc]
+    have hse : (cfgE.fmt.sstart == cfgE.fmt.send) = false := by decide
+    have h1 : ((123 : UInt8) == cfgE.fmt.send) = false := by decide
+    have h2 : ((123 : UInt8) != cfgE.fmt.sstart) = false := by decide
+    simp only [hse, Bool.false_eq_true, ↓reduceIte, hnv, h1, Bool.and_false, h2, hes]
+  closeLine := by
+    intro e m s src prev junk rest hclean _ hj hsrc
+    obtain ⟨ln, src1, hnv, hr1⟩ := nextvis_skip flatCfg_E.hash junk 125 rest s src hj (by decide) hsrc
+    obtain ⟨p', hafter, hclean'⟩ := del_clean e m s.path hclean
+    have hem : s.path.elems.isEmpty = false := by rw [hclean.1]; simp
+    refine ⟨{ s with line := ln, curr := Flag.sectEnd }, src1, p', ?_, rfl, hafter, hclean', hr1⟩
+    simp only [next, parseFormatEnc]
+    have hse : (cfgE.fmt.sstart == cfgE.fmt.send) = false := by decide
+    simp [hse, hnv, hem, Flag.sectEnd]
+  eof := by
+    intro s src prev junk b hclean hj hsrc
+    obtain ⟨ln, src1, hnv, _⟩ := nextvis_end flatCfg_E.hash junk b s src hj hsrc
+    refine ⟨{ s with line := ln, curr := Flag.name }, src1, ?_⟩
+    simp only [next, parseFormatEnc]
+    have hse : (cfgE.fmt.sstart == cfgE.fmt.send) = false := by decide
+    have hem : s.path.elems.isEmpty = true := by rw [hclean.1]; rfl
+    simp [hse, hnv, hem]
 
-theorem parseNode_enc (d : Decor) (hd : d.ok) (f : Forest) (hleaf : f.all isLeaf = true) (hok : nodesOk f = true) :
-    (parseNode [] (Style.desc .enc) 0xff 0xff (-2) (renderOptions d 0 f)).code = 0
-    ∧ (parseNode [] (Style.desc .enc) 0xff 0xff (-2) (renderOptions d 0 f)).children = norm f := by
-  obtain ⟨hcode, hforest⟩ := loop_enc d hd f hleaf hok ({} : St) clean_init rfl
-  have := parseNode_eq (Style.desc .enc) cfgE 120 .enc (renderOptions d 0 f) cfgE_desc (by decide) rfl _ rfl
+/-- the element loop on a whole text in the `{x}` format, from any clean parser state -/
+theorem loop_enc (d : Decor) (hd : d.ok) (f : Forest) (hok : nodesOk f = true)
+    (s : St) (hclean : Clean [] s.path) (hv : s.valid = 0) :
+    (loop .enc cfgE nodeAppend ({} : Build) Flag.section_ s { rest := renderNest encOpenLine d 0 f }).code = 0
+    ∧ (loop .enc cfgE nodeAppend ({} : Build) Flag.section_ s { rest := renderNest encOpenLine d 0 f }).ctx.forest
+        = norm f := by
+  have := loop_nest nestStyle_E d hd f hok s Flag.section_ (by decide) hclean hv [] false rfl
+  simpa using this
+
+theorem parseNode_enc (d : Decor) (hd : d.ok) (f : Forest) (hok : nodesOk f = true) :
+    (parseNode [] (Style.desc .enc) 0xff 0xff (-2) (renderNest encOpenLine d 0 f)).code = 0
+    ∧ (parseNode [] (Style.desc .enc) 0xff 0xff (-2) (renderNest encOpenLine d 0 f)).children = norm f := by
+  obtain ⟨hcode, hforest⟩ := loop_enc d hd f hok ({} : St) clean_init rfl
+  have := parseNode_eq (Style.desc .enc) cfgE 120 .enc (renderNest encOpenLine d 0 f) cfgE_desc (by decide) rfl _ rfl
     (by unfold parseConfig; exact hcode)
   refine ⟨this.1, ?_⟩
   rw [this.2]
